@@ -590,10 +590,22 @@ func engineB(c *core.Ctx) error {
 						mu.Unlock()
 						return
 					}
+					var liveDocs []*qs.Doc
+					{
+						lv := liveOf(h)
+						var ids []int
+						for id := range lv {
+							ids = append(ids, id)
+						}
+						sort.Ints(ids)
+						for _, id := range ids {
+							liveDocs = append(liveDocs, lv[id])
+						}
+					}
 					var local []*recT
 					var localBad []badT
 					for k := 0; k < nQ; k++ {
-						q := qs.GenQuery(r, qs.Facts{NIDs: nids}, depth)
+						q := qs.GenQuery(r, qs.Facts{NIDs: nids, Docs: liveDocs}, depth)
 						if err := qs.AnnotateK1(q, ct.idx[qs.EngScorch]); err != nil {
 							mu.Lock()
 							firstErr = err
@@ -728,7 +740,7 @@ func judge(c *core.Ctx, all []*recT, account bool) error {
 			if len(recs) == 0 {
 				return
 			}
-			bad, err := c.JudgeRecords("JudgeSearcher", cfg, recs, maxFail, core.Timeout(25*time.Minute))
+			bad, err := qs.Judge(c, "JudgeSearcher", cfg, qs.DummySearcher, recs, maxFail, core.Timeout(25*time.Minute))
 			mu.Lock()
 			defer mu.Unlock()
 			if err != nil {
@@ -835,7 +847,7 @@ func firstBadProgram(c *core.Ctx, rc *recT, progs [][]callT) []callT {
 	for _, p := range progs {
 		recs = append(recs, rc.record([][]callT{p}, false))
 	}
-	bad, err := c.JudgeRecords("JudgeSearcher", "JudgeSearcher.cfg", recs, 1)
+	bad, err := qs.Judge(c, "JudgeSearcher", "JudgeSearcher.cfg", qs.DummySearcher, recs, 1)
 	if err == nil {
 		for i := range bad {
 			return progs[i]
